@@ -280,6 +280,179 @@ def run_bezier(facts, out):
     out.add('BZ', BZ_ADT, 'inventory', 'crate', True, '', {'call_sites_examined': checked, 'trivial': True}, ordinal=False)
 
 
+def _bz_origin(body, local, limit=16):
+    """where a reference / copied value comes from: (root local, field path) after following single-definition
+    reborrows, moves and neutral calls (deref, as_slice, ..); the root is a parameter, a call result or a local with
+    several definitions"""
+    cur, fields = local, ()
+    for _ in range(limit):
+        if cur <= body.argc:
+            break
+        defs = body.defs.get(cur, [])
+        if len(defs) != 1:
+            break
+        bi, si, kind, s = defs[0]
+        if kind == 'call':
+            c = callee_of(s)
+            if c and c['name'] in BZ_NEUTRAL and s['args'] and op_local(s['args'][0]) is not None:
+                cur = op_local(s['args'][0])
+                continue
+            break
+        rv = s['rv']
+        pl = rv['pl'] if rv['k'] in ('ref', 'rawptr') else (op_place(rv['op']) if rv['k'] in ('use', 'cast') else None)
+        if pl is None or _has_index(pl):
+            break
+        fields = tuple(e['n'] for e in pl['p'] if e['k'] == 'field') + fields
+        cur = pl['l']
+    return (cur, fields)
+
+
+def run_bezier_sized(facts, out):
+    """C01/C18: the Bezier scratch vectors are indexed up to the number of control points of the segment at hand
+    (`midpoints[..count]`, `l[count - 1]`), so they must have been grown to that many elements first -- otherwise the
+    indexing panics, and whether it does depends on what an earlier segment left in the shared buffers.
+    Rule (a must-precede rule over the call graph, instances taken from the code): every call of a function that
+    takes the scratch vectors apart (borrows the Vec fields of BezierBuffers) is, in its caller, dominated by a call
+    of the grower (`extend_exact`) on the same buffers with the length of the very slice of control points that is
+    handed on; a caller that merely passes its own buffers and its own slice through inherits the obligation.
+    (That the functions below index no further than that count is the bounded-use / index-level part, not this rule.)"""
+    a = facts.adts.get(BZ_ADT)
+    if a is None:
+        return
+    fields = {f['name'] for f in a['variants'][0]['fields'] if f['ty']['s'].startswith('std::vec::Vec<')}
+
+    def ty(b, l):
+        return b.locals[l]['s']
+
+    def buf_and_slice_params(b):
+        bp = [i for i in range(1, b.argc + 1) if ty(b, i).replace('&mut ', '').replace('&', '').strip() == BZ_ADT]
+        sp = [i for i in range(1, b.argc + 1) if ty(b, i).startswith('&[') and 'Pos' in ty(b, i) and not ty(b, i).startswith('&mut')]
+        return bp, sp
+    users = []
+    for p, b in facts.bodies.items():
+        if p in BZ_GROWERS or any(('<%s as %s' % (BZ_ADT, d)) in p for d in BZ_DERIVES) or 'CurveBuffers as' in p:
+            continue
+        if _bz_seed_locals(b, fields):
+            users.append(p)
+    out.anchor('BZ-S', 'functions taking the Bezier scratch vectors apart', len(users) >= 1, str(users))
+    out.anchor('BZ-S', 'grower of the Bezier scratch vectors', all(g in facts.bodies for g in BZ_GROWERS), str(sorted(BZ_GROWERS)))
+    oblig = {}
+    work = []
+
+    def len_source(b, ln):
+        vd = value_def(b, ln) if ln is not None else None
+        if vd and vd[0] == 'call':
+            c3 = callee_of(vd[1])
+            if c3 and c3['name'] == 'len' and vd[1]['args']:
+                l3 = op_local(vd[1]['args'][0])
+                return _bz_origin(b, l3) if l3 is not None else None
+        elif vd and vd[0] == 'assign' and vd[1]['rv']['k'] in ('len', 'ptrmeta', 'unary'):
+            rv = vd[1]['rv']
+            pl = rv.get('pl') or (op_place(rv['op']) if 'op' in rv else None)
+            return _bz_origin(b, pl['l']) if pl is not None else None
+        return None
+
+    def grown_inside(b, bpi, spi):
+        """the function grows its own buffer parameter for its own slice parameter before it takes the vectors apart"""
+        seeds_at = set()
+        for bi, blk in enumerate(b.blocks):
+            if blk.get('cleanup'):
+                continue
+            for st in blk['st']:
+                if st['k'] == 'assign' and not st['pl']['p'] and st['rv']['k'] in ('ref', 'rawptr'):
+                    fl = [e for e in st['rv']['pl']['p'] if e['k'] == 'field']
+                    if fl and fl[-1]['n'] in fields and fl[-1].get('adt', BZ_ADT) == BZ_ADT:
+                        seeds_at.add(bi)
+        for bb2, t2 in b.calls():
+            c2 = callee_of(t2)
+            if not c2 or c2['path'] not in BZ_GROWERS or len(t2['args']) < 2:
+                continue
+            l0 = op_local(t2['args'][0])
+            if l0 is None or _bz_origin(b, l0) != (bpi, ()):
+                continue
+            if len_source(b, op_local(t2['args'][1])) != (spi, ()):
+                continue
+            if seeds_at and all(b.dominates(bb2, x) and bb2 != x for x in seeds_at):
+                return t2
+        return None
+    for p in users:
+        bp, sp = buf_and_slice_params(facts.bodies[p])
+        if len(bp) == 1 and len(sp) == 1:
+            g = grown_inside(facts.bodies[p], bp[0], sp[0])
+            if g is not None:
+                out.add('BZ-S', p, 'sized-before-use:grows-itself', loc_of(g['sp']), True, '', None, ordinal=False)
+                continue
+            oblig[p] = (bp[0], sp[0])
+            work.append(p)
+        else:
+            b = facts.bodies[p]
+            out.add('BZ-S', p, 'sized-before-use', '%s:%d' % (b.file, b.line), False,
+                    'cannot tell which slice the Bezier scratch vectors must be sized for: the function has %d buffer and %d '
+                    'control-point slice parameters' % (len(bp), len(sp)), None, ordinal=False)
+    n_sites = 0
+    done = set()
+    while work:
+        u = work.pop()
+        if u in done:
+            continue
+        done.add(u)
+        bi_, si_ = oblig[u]
+        sites = 0
+        for p, b in facts.bodies.items():
+            for bb, t in b.calls():
+                if b.is_cleanup(bb):
+                    continue
+                c = callee_of(t)
+                if not c or c['path'] != u:
+                    continue
+                sites += 1
+                n_sites += 1
+                lb = op_local(t['args'][bi_ - 1]) if len(t['args']) >= bi_ else None
+                ls = op_local(t['args'][si_ - 1]) if len(t['args']) >= si_ else None
+                ob = _bz_origin(b, lb) if lb is not None else None
+                os_ = _bz_origin(b, ls) if ls is not None else None
+                ok = False
+                why = ''
+                # (A) sized here, on every path to the call
+                for bb2, t2 in b.calls():
+                    c2 = callee_of(t2)
+                    if not c2 or c2['path'] not in BZ_GROWERS or len(t2['args']) < 2:
+                        continue
+                    if not (b.dominates(bb2, bb) and bb2 != bb):
+                        why = 'the scratch vectors are grown only on some of the paths that reach this call'
+                        continue
+                    l0 = op_local(t2['args'][0])
+                    if l0 is None or _bz_origin(b, l0) != ob:
+                        continue
+                    src = len_source(b, op_local(t2['args'][1]))
+                    if src is not None and src == os_:
+                        ok = True
+                        break
+                    why = 'the scratch vectors are grown for something other than the length of the slice handed on'
+                # (B) passes its own buffers and slice through: its callers owe the sizing
+                if not ok and ob is not None and os_ is not None and ob[1] == () and os_[1] == () and \
+                        1 <= ob[0] <= b.argc and 1 <= os_[0] <= b.argc and p in facts.bodies and '{closure' not in p:
+                    bp, sp = buf_and_slice_params(b)
+                    if ob[0] in bp and os_[0] in sp:
+                        prev = oblig.get(p)
+                        if prev is None or prev == (ob[0], os_[0]):
+                            oblig[p] = (ob[0], os_[0])
+                            work.append(p)
+                            out.add('BZ-S', p, 'sized-before-use:passes-on', loc_of(t['sp']), True, '',
+                                    {'callee': u, 'obligation': 'inherited by the callers'}, ordinal=False)
+                            continue
+                out.add('BZ-S', p, 'sized-before-use', loc_of(t['sp']), ok,
+                        '' if ok else ('`%s` takes the Bezier scratch vectors apart and indexes them up to the number of control '
+                                       'points, but no call of the grower with the length of that slice precedes this call on every '
+                                       'path%s: the indexing panics unless an earlier, longer segment happened to leave the shared '
+                                       'buffers large enough' % (u.split('::')[-1], ' (%s)' % why if why else '')),
+                        {'callee': u}, ordinal=False)
+        if sites == 0 and u in users:
+            b = facts.bodies[u]
+            out.add('BZ-S', u, 'sized-before-use:unused', '%s:%d' % (b.file, b.line), True, '', {'trivial': True}, ordinal=False)
+    out.add('BZ-S', BZ_ADT, 'inventory', 'crate', True, '', {'call_sites_examined': n_sites, 'trivial': True}, ordinal=False)
+
+
 def _has_index(pl):
     return any(e['k'] in ('index', 'constindex', 'subslice') for e in pl['p'])
 
